@@ -979,7 +979,7 @@ theorem ok_unique (h : List Call) (hok : h.all Call.ok = true) :
   simp only at hd
   subst hd
   simp only [Call.ok, argOk, detailsOk, Bool.and_eq_true, Bool.not_eq_true'] at this
-  exact unique_of_noDup d this.1
+  exact unique_of_noDup d this
 
 /-- **Headline.**  The executable specification `Spec.C08.holds` is true of the model's trace for every input. -/
 theorem holds_model (i : Input) : holds i (model i) = true := by
